@@ -407,6 +407,9 @@ func runCheck(pd *propDef, tier string, seed int, verifDir, only string, workers
 			hd.Cfg(&spec.Cfg)
 		}
 		spec.Cfg.Race = hd.Race
+		if !cr.hasKnownFindings(pd.ID) {
+			spec.StopAfterViolations = 500
+		}
 		cr.race = hd.Race
 		if tier == "thorough" {
 			spec.Cfg.CrossCheck = true
@@ -688,6 +691,17 @@ func runCheck(pd *propDef, tier string, seed int, verifDir, only string, workers
 }
 
 func labelKnown(cr *checkRun, prop, label string) bool { return false }
+
+// hasKnownFindings: violating paths are expected on the unchanged tree for this property, so the
+// exploration must not stop early on their account.
+func (cr *checkRun) hasKnownFindings(prop string) bool {
+	for _, k := range cr.known.Findings {
+		if k.Property == prop {
+			return true
+		}
+	}
+	return false
+}
 
 func tailStr(s string, n int) string {
 	if len(s) > n {
